@@ -242,7 +242,9 @@ func (m *c13Machine) run(s c13Step) string {
 				err = gtree.MkdirFromRoot(root, gtree.WithDryRun(), gtree.WithFileExtensions(m.extList()))
 			case "mkdir":
 				m.seq++
-				target := filepath.Join(m.dir, fmt.Sprintf("t%d", m.seq))
+				// the same absolute path in every step (emptied in between): a result must not depend on what an earlier call
+		// made there
+		target := filepath.Join(m.dir, "t")
 				os.MkdirAll(target, 0o755)
 				err = gtree.MkdirFromRoot(root, gtree.WithTargetDir(target))
 				os.RemoveAll(target)
@@ -334,7 +336,7 @@ func (m *c13Machine) run(s c13Step) string {
 		}
 	case "mkdir", "verify":
 		m.seq++
-		target := filepath.Join(m.dir, fmt.Sprintf("t%d", m.seq))
+		target := filepath.Join(m.dir, "t") // the same absolute path in every step (emptied in between): no result may depend on what an earlier call made there
 		os.MkdirAll(target, 0o755)
 		defer os.RemoveAll(target)
 		if s.Kind == "verify" {
@@ -543,6 +545,30 @@ type c13Concurrent struct {
 	DryRun    []bool      `json:"dryRun"`    // per document: OutputFromMarkdown with WithDryRun + extension "b" instead of plain text
 	Procs     int         `json:"procs"`
 	Massive   bool        `json:"massive,omitempty"` // every output / walk of the histories uses WithMassive
+	FailFirst int         `json:"failFirst,omitempty"` // earlier calls whose reader fails half way (sequential and between the concurrent ones): an independent call's failure must not affect later calls
+}
+
+type halfReader struct {
+	doc  string
+	done bool
+}
+
+func (r *halfReader) Read(p []byte) (int, error) {
+	if r.done {
+		return 0, ops.ErrReader
+	}
+	r.done = true
+	return copy(p, r.doc[:len(r.doc)/2]), nil
+}
+
+func failingCall(doc string) (pan string) {
+	defer func() {
+		if p := recover(); p != nil {
+			pan = fmt.Sprint(p)
+		}
+	}()
+	_ = gtree.OutputFromMarkdown(io.Discard, &halfReader{doc: doc})
+	return ""
 }
 
 func c13ConcurrentCheck(c c13Concurrent) string {
@@ -564,6 +590,11 @@ func c13ConcurrentCheck(c c13Concurrent) string {
 			return fmt.Sprintf("document %q fails when run alone: %v %s", d, err, pan)
 		}
 		want[i] = out
+	}
+	for i := 0; i < c.FailFirst && len(c.Docs) > 0; i++ {
+		if pan := failingCall(c.Docs[i%len(c.Docs)]); pan != "" {
+			return "OutputFromMarkdown with a failing reader panicked: " + pan
+		}
 	}
 	var wg sync.WaitGroup
 	msgs := make([]string, len(c.Histories)+len(c.Docs))
@@ -599,6 +630,9 @@ func c13ConcurrentCheck(c c13Concurrent) string {
 				if err != nil || pan != "" || out != want[i] {
 					msgs[len(c.Histories)+i] = fmt.Sprintf("concurrent OutputFromMarkdown(%q) gave %q, %v %s; alone it gives %q", d, out, err, pan, want[i])
 					return
+				}
+				if c.FailFirst > 0 && (i+rep)%2 == 0 {
+					failingCall(d)
 				}
 				runtime.Gosched()
 			}
@@ -655,6 +689,9 @@ func TestC13Concurrent(t *testing.T) {
 			c.DryRun = append(c.DryRun, rapid.Bool().Draw(rt, "dryrun"))
 		}
 		c.Procs = rapid.SampledFrom([]int{1, 2, 4, 16}).Draw(rt, "procs")
+		if nd > 0 && rapid.IntRange(0, 2).Draw(rt, "failing") == 0 {
+			c.FailFirst = rapid.IntRange(1, 3).Draw(rt, "failFirst")
+		}
 		col.eval(true, hash64(fmt.Sprint(c)), fmt.Sprintf("concurrent(%d)", g), fmt.Sprintf("gomaxprocs:%d", c.Procs))
 		col.sample(func() any {
 			return map[string]any{"goroutines": g, "docs": c.Docs, "first": histString(c.Histories[0])}
